@@ -391,6 +391,8 @@ where
         let mut guard = file.lock_write().await.map_err(|e| e.error)?;
         guard.write_all(&buffer).await?;
         guard.flush().await?;
+        // The new vault may be shorter than the one it replaces
+        guard.inner_mut().set_len(buffer.len() as u64).await?;
 
         Ok(())
     }
